@@ -151,6 +151,11 @@ func recoverCheck(w *harness.World, img *vstor.Stor, what string, loose map[stri
 			w2.M.Put(k, v)
 		}
 		it.Release()
+		// point reads agree with that scan straight away (before any compaction rewrites the
+		// tables Recover rebuilt)
+		if !w2.Failed() {
+			w2.CheckDB()
+		}
 	}
 	if !w2.Failed() {
 		lv, st := harness.CheckLSM(img, db.VerifState(), w.Cfg)
@@ -286,6 +291,8 @@ func init() {
 			for _, cfg := range []string{"flushy/bytewise", "deep/bytewise", "wide/bytewise"} {
 				specs = append(specs, seqSpec{Cfg: cfg, Alpha: c19Alpha, Depth: d, Checks: "db", Mode: "damage"})
 			}
+			// with a filter policy (and compression): tables that Recover rebuilds get filter blocks too
+			specs = append(specs, seqSpec{Cfg: "snappy/bytewise", Alpha: c19Alpha, Depth: d, Checks: "db", Mode: "damage"})
 			specs = append(specs, seqSpec{Cfg: "flushy/shortlex", Alpha: mustAlpha("shortlex"), Depth: d, Checks: "db", Probes: mustProbes("shortlex")})
 			// the zero-length key (its internal key is exactly the 8-byte trailer), values and
 			// tombstones, in tables that get rebuilt because another block of theirs is damaged
